@@ -284,6 +284,73 @@ fn https_opts() -> Vec<Option<uri::Https>> {
     v
 }
 
+/// Positions x character classes for free-text-like inputs. A text is made
+/// of parts; in one part of a neutral text, the character at one POSITION
+/// CLASS (first, middle, last, the part's only character) is replaced by one
+/// representative of each CHARACTER CLASS the input type admits.
+const POS_NAMES: [&str; 4] = ["first", "middle", "last", "only"];
+fn put_at(part: &str, pos: usize, ch: char) -> String {
+    let c: Vec<char> = part.chars().collect();
+    match pos { 0 => format!("{ch}{}{}", c[1], c[2]), 1 => format!("{}{ch}{}", c[0], c[2]), 2 => format!("{}{}{ch}", c[0], c[1]), _ => ch.to_string() }
+}
+/// lower, upper, digit, and every punctuation character the URI types admit
+fn uri_chars() -> Vec<char> { let mut v = vec!['a', 'Z', '7']; v.extend(PUNCT.chars()); v }
+
+struct XText { desc: String, file: uri::Rsync, dir: uri::Rsync, https: uri::Https }
+
+/// rsync://AUTHORITY/MODULE/SEGMENT/LAST (+ "/" for directories) and
+/// https://AUTHORITY/SEGMENT/LAST with every (part, position, character).
+/// Texts the URI types themselves refuse ("." / ".." segments, ...) are not
+/// builder inputs and are left out.
+fn xtexts() -> Vec<XText> {
+    let parts = ["hst", "mod", "seg", "lst"];
+    let part_names = ["authority", "module", "segment", "last segment"];
+    let mut out = vec![];
+    for (pi, _) in parts.iter().enumerate() { for pos in 0..4 { for ch in uri_chars() {
+        let mut p: Vec<String> = parts.iter().map(|x| x.to_string()).collect();
+        p[pi] = put_at(parts[pi], pos, ch);
+        let file = format!("rsync://{}/{}/{}/{}", p[0], p[1], p[2], p[3]);
+        let hp = [if pi == 0 { p[0].clone() } else { "hst".into() }, if pi == 1 || pi == 2 { p[pi].clone() } else { "seg".into() }, if pi == 3 { p[3].clone() } else { "lst".into() }];
+        let https = format!("https://{}/{}/{}", hp[0], hp[1], hp[2]);
+        if let (Ok(f), Ok(dr), Ok(h)) = (uri::Rsync::from_str(&file), uri::Rsync::from_str(&format!("{file}/")), uri::Https::from_str(&https)) {
+            out.push(XText { desc: format!("{} {} char {:?}", part_names[pi], POS_NAMES[pos], ch), file: f, dir: dr, https: h });
+        }
+    }}}
+    out
+}
+
+/// PrintableString common names: every character class of PrintableString
+/// (RFC 5280: letters, digits, space and ' ( ) + , - . / : = ?) at the first,
+/// middle and last position and as the only character.
+fn xnames() -> Vec<(String, Name)> {
+    let mut out = vec![];
+    for pos in 0..4 { for ch in "aZ7 '()+,-./:=?".chars() {
+        let text = put_at("Cmn", pos, ch);
+        let dn = der::seq(&[der::set_of(&[der::seq(&[der::oid(&[2, 5, 4, 3]), der::printable(&text)])])]);
+        if let Ok(n) = Mode::Der.decode(dn.as_slice(), Name::take_from) { out.push((format!("CN {} char {:?}", POS_NAMES[pos], ch), n)) }
+    }}
+    out
+}
+
+/// Manifest file names (RFC 9286 4.2.2: one or more of a-z A-Z 0-9 - _, a
+/// dot, three letters): every character class at the first, middle and last
+/// stem position and as a one-character stem; every pair of classes as a
+/// two-character stem; a digits-only stem; stems of nothing but punctuation;
+/// every registered extension; every upper/lower-case pattern of one extension.
+fn mft_name_classes() -> Vec<String> {
+    let classes = ['a', 'Z', '7', '-', '_'];
+    let mut v: Vec<String> = vec![];
+    for pos in 0..4 { for ch in classes { v.push(format!("{}.roa", put_at("mmm", pos, ch))) } }
+    for a in classes { for b in classes { v.push(format!("{a}{b}.cer")) } }
+    v.push("0123456789.crl".into());
+    for st in ["-_-", "___", "---", "_-_-_-_-", "-", "_"] { v.push(format!("{st}.mft")) }
+    for ext in ["asa", "cer", "crl", "gbr", "mft", "roa", "sig", "tak"] { v.push(format!("m.{ext}")) }
+    for m in 0..8 { let e: String = "roa".chars().enumerate().map(|(i, c)| if m & (1 << i) != 0 { c.to_ascii_uppercase() } else { c }).collect(); v.push(format!("m.{e}")) }
+    for ext in ["aaa", "zzz", "AAA", "ZZZ"] { v.push(format!("m.{ext}")) }
+    v.sort(); v.dedup();
+    v
+}
+
 /// names {derived from the key, explicit PrintableString CN, explicit CN + serialNumber}
 fn explicit_names() -> Vec<Name> {
     let cn = |s: &str| der::seq(&[der::oid(&[2, 5, 4, 3]), der::printable(s)]);
@@ -725,6 +792,8 @@ struct Dom {
     objs: Vec<uri::Rsync>,
     https: Vec<Option<uri::Https>>,
     names: Vec<Name>,
+    xtext: Vec<XText>,
+    xnames: Vec<(String, Name)>,
 }
 
 impl Dom {
@@ -733,7 +802,7 @@ impl Dom {
         let ta = pki::valid_ta(&signer, 0, Res::all());
         Dom { signer, ta, serials: serial_dom(), instants: instants(), windows: windows(), dirs: rsync_dirs(),
               crls: rsync_files("crl"), cers: rsync_files("cer"), mfts: rsync_files("mft"), objs: rsync_files("roa"),
-              https: https_opts(), names: explicit_names() }
+              https: https_opts(), names: explicit_names(), xtext: xtexts(), xnames: xnames() }
     }
     /// 0 = derived from the key, 1.. = explicit
     fn name_opt(&self, i: usize) -> Option<Name> { if i == 0 { None } else { Some(self.names[i - 1].clone()) } }
@@ -765,6 +834,9 @@ struct CertSpec {
     subject_key: usize,
     /// TA only: write an AKI (equal to the SKI)
     ta_aki: bool,
+    /// positions x classes layer: every URI field takes this text / both names take this name
+    text_x: Option<usize>,
+    name_x: Option<usize>,
 }
 
 impl CertSpec {
@@ -774,13 +846,15 @@ impl CertSpec {
             v4: if kind == CKind::Router { ResCh::Missing } else { ResCh::Blocks(vec![0, 2]) },
             v6: if kind == CKind::Router { ResCh::Missing } else if kind == CKind::Ta { ResCh::Blocks(vec![1]) } else { ResCh::Inherit },
             asn: ResCh::Blocks(vec![1, 2]), overclaim: Overclaim::Refuse,
-            subject_key: if kind == CKind::Ta { 0 } else { 2 }, ta_aki: false }
+            subject_key: if kind == CKind::Ta { 0 } else { 2 }, ta_aki: false, text_x: None, name_x: None }
     }
     fn wit(&self, d: &Dom) -> String {
         format!("{:?} serial={} validity={} issuer={} subject={} uris={}/{}/{}/{} notify={} v4={} v6={} as={} policy={:?} key={}{}",
             self.kind, d.serials[self.serial].0, d.wname(self.win), NAME_NAMES[self.issuer_name], NAME_NAMES[self.subject_name],
             URI_NAMES[self.uris[0]], URI_NAMES[self.uris[1]], URI_NAMES[self.uris[2]], URI_NAMES[self.uris[3]], self.notify,
             self.v4.wit(), self.v6.wit(), self.asn.wit(), self.overclaim, self.subject_key, if self.ta_aki { " aki=ski" } else { "" })
+            + &self.text_x.map(|i| format!(" all-uris=[{}: {}]", d.xtext[i].desc, d.xtext[i].file)).unwrap_or_default()
+            + &self.name_x.map(|i| format!(" both-names=[{}]", d.xnames[i].0)).unwrap_or_default()
     }
     /// Is this combination inside the RFC 6487 / 8209 profile?
     fn conforming(&self) -> bool {
@@ -830,6 +904,16 @@ impl CertSpec {
         t.set_v4_resources(pki::ip_res(32, &self.v4.claim(&v4_atoms())));
         t.set_v6_resources(pki::ip_res(128, &self.v6.claim(&v6_atoms())));
         t.set_as_resources(pki::as_res(&self.asn.claim(&as_atoms())));
+        if let Some(i) = self.text_x {
+            let x = &d.xtext[i];
+            if t.crl_uri().is_some() { t.set_crl_uri(Some(x.file.clone())) }
+            if t.ca_issuer().is_some() { t.set_ca_issuer(Some(x.file.clone())) }
+            if t.ca_repository().is_some() { t.set_ca_repository(Some(x.dir.clone())) }
+            if t.rpki_manifest().is_some() { t.set_rpki_manifest(Some(x.file.clone())) }
+            if t.signed_object().is_some() { t.set_signed_object(Some(x.file.clone())) }
+            if t.rpki_notify().is_some() { t.set_rpki_notify(Some(x.https.clone())) }
+        }
+        if let Some(i) = self.name_x { t.set_issuer(d.xnames[i].1.clone()); t.set_subject(d.xnames[i].1.clone()) }
         t
     }
 }
@@ -980,6 +1064,11 @@ fn cert_cases(d: &Dom, kind: CKind, thorough: bool) -> Vec<CertSpec> {
         v.push(CertSpec { serial: s, win: w, issuer_name: i, subject_name: j, uris: *u, notify: if matches!(kind, CKind::Ta | CKind::Ca) { *n } else { 0 },
             v4: a.clone(), v6: b.clone(), asn: c.clone(), overclaim: p, ..base.clone() });
     }}}}}}
+    // (g) positions x character classes in every URI field and in both names
+    if kind != CKind::Router || thorough {
+        for i in 0..d.xtext.len() { v.push(CertSpec { text_x: Some(i), ..base.clone() }) }
+        for i in 0..d.xnames.len() { v.push(CertSpec { name_x: Some(i), ..base.clone() }) }
+    }
     v.retain(|s| s.conforming());
     v
 }
@@ -987,7 +1076,7 @@ fn cert_cases(d: &Dom, kind: CKind, thorough: bool) -> Vec<CertSpec> {
 fn space_certs(ctx: &Ctx, d: &Dom) {
     for (kind, obj) in [(CKind::Ta, "cert.ta"), (CKind::Ca, "cert.ca"), (CKind::Ee, "cert.ee"), (CKind::Router, "cert.router")] {
         let sp = ctx.space(&format!("build.{obj}"),
-            "TbsCert::new + setters + into_cert -> Cert::decode -> validate_*_at(both window ends): serial x validity x names; every URI field x {short, URI-legal punctuation, upper-case scheme/host, >127 octets} (rpkiNotify also absent); atom subsets x {missing, inherit, blocks} per family; every insertion order of every atom subset; subject keys; full product of representatives of all groups; non-trivial = distinct DER encodings produced; outcome = UTCTime/GeneralizedTime counts found in the DER + resource choice per family");
+            "TbsCert::new + setters + into_cert -> Cert::decode -> validate_*_at(both window ends): serial x validity x names; every URI field x {short, URI-legal punctuation, upper-case scheme/host, >127 octets} (rpkiNotify also absent); atom subsets x {missing, inherit, blocks} per family; every insertion order of every atom subset; subject keys; full product of representatives of all groups; positions x character classes: in every URI field (authority / module / segment / last segment x first / middle / last / only character x {lower, upper, digit, each of the 17 URI-legal punctuation characters}) and in both names (PrintableString classes x positions); non-trivial = distinct DER encodings produced; outcome = UTCTime/GeneralizedTime counts found in the DER + resource choice per family");
         let cases = cert_cases(d, kind, ctx.tier.is_thorough());
         run_cases(ctx, &sp, obj, &cases, |s| s.wit(d), |s| cert_case(d, s));
         sp.done(true, &format!("{} profile-conforming input tuples (all field groups complete)", cases.len()));
@@ -1154,10 +1243,11 @@ struct MftCase { number: usize, this: usize, next: usize, files: Vec<usize>, so:
 
 fn space_manifest(ctx: &Ctx, d: &Dom) {
     let sp = ctx.space("build.manifest",
-        "ManifestContent::new + into_manifest -> Manifest::decode(strict) -> SignedObject::validate_at + Manifest::validate_at at both window ends: manifest number x (thisUpdate <= nextUpdate over the 5 instants) x every sequence (with repetition) of 0-3 file entries out of 6 chosen for their relations (case-only difference, same stem, neighbours, the same name with another hash, exact duplicates, one name of 134 octets) x EE settings; quick thins the number x window grid for lists of >= 2 entries to 3 x 3, thorough for lists of 3 to (all numbers x 3 windows) + (one number x all windows); non-trivial = distinct DER; outcome = number of files measured on the twin");
-    let files = mft_files();
+        "ManifestContent::new + into_manifest -> Manifest::decode(strict) -> SignedObject::validate_at + Manifest::validate_at at both window ends: manifest number x (thisUpdate <= nextUpdate over the 5 instants) x every sequence (with repetition) of 0-3 file entries out of 6 chosen for their relations (case-only difference, same stem, neighbours, the same name with another hash, exact duplicates, one name of 134 octets) x EE settings; plus positions x character classes of RFC 9286 file names (every class of a-z A-Z 0-9 - _ at the first / middle / last stem position and as the only stem character, every pair of classes as a two-character stem, digits-only and punctuation-only stems, every registered extension, every upper/lower-case pattern of an extension), each alone, after another entry, and twice around another entry; quick thins the number x window grid for lists of >= 2 entries to 3 x 3, thorough for lists of 3 to (all numbers x 3 windows) + (one number x all windows); non-trivial = distinct DER; outcome = number of files measured on the twin");
+    let mut files = mft_files();
     let thorough = ctx.tier.is_thorough();
     let nfiles = files.len();
+    for n in mft_name_classes() { let h = sha256(n.as_bytes()); files.push((n.into_bytes(), h)) }
     let lists = sequences(nfiles, 0, 3);
     let mut cases = vec![];
     let few_numbers = [0usize, 3, 5];
@@ -1171,6 +1261,10 @@ fn space_manifest(ctx: &Ctx, d: &Dom) {
     for so in SoSpec::reps().into_iter().skip(1) { for n in [0usize, 5] { for &(a, b) in &few_windows { for l in lists.iter().filter(|l| l.len() <= 2) {
         cases.push(MftCase { number: n, this: a, next: b, files: l.clone(), so: so.clone() });
     }}}}
+    // positions x character classes of file names: each alone, and next to / after another entry
+    for i in nfiles..files.len() { for l in [vec![i], vec![0, i], vec![i, 3, i]] {
+        cases.push(MftCase { number: 3, this: 1, next: 3, files: l, so: SoSpec::base() });
+    }}
     let base_uri = d.dirs[1].clone();
     run_cases(ctx, &sp, "manifest", &cases,
         |c| format!("manifest number={} this={} next={} files={:?} {}", d.serials[c.number].0, INSTANT_NAMES[c.this], INSTANT_NAMES[c.next],
@@ -1497,6 +1591,12 @@ fn space_csr(ctx: &Ctx, d: &Dom) {
     let mut cases = vec![];
     for r in 0..repos.len() { for m in 0..4 { for n in 0..4 { cases.push(CsrCase { key: 1, repo: r, mft: m, notify: n }) }}}
     for k in 0..8 { for r in [0usize, 4] { cases.push(CsrCase { key: k, repo: r, mft: 1, notify: 2 }) }}
+    // positions x character classes of the three URIs (indexes beyond the fixed tables)
+    let (nr, nm, nn) = (repos.len(), d.mfts.len(), d.https.len());
+    for i in 0..d.xtext.len() { cases.push(CsrCase { key: 1, repo: nr + i, mft: nm + i, notify: nn + i }) }
+    let repos: Vec<uri::Rsync> = repos.into_iter().chain(d.xtext.iter().map(|x| x.dir.clone())).collect();
+    let mfts: Vec<uri::Rsync> = d.mfts.iter().cloned().chain(d.xtext.iter().map(|x| x.file.clone())).collect();
+    let https: Vec<Option<uri::Https>> = d.https.iter().cloned().chain(d.xtext.iter().map(|x| Some(x.https.clone()))).collect();
     run_cases(ctx, &sp, "csr", &cases,
         |c| format!("csr key={} caRepository={} rpkiManifest={} notify={}", c.key, repo_names[c.repo], URI_NAMES[c.mft], c.notify),
         |c| {
@@ -1962,7 +2062,7 @@ fn tbs_set(t: &mut TbsCert, f: usize, src: &TbsCert) {
 /// A TbsCert that differs from `b` in every one of the 19 fields.
 fn tbs_alternative(d: &Dom, kind: CKind, b: &TbsCert) -> TbsCert {
     let spec = CertSpec { kind, serial: 5, win: (0, 4), issuer_name: 2, subject_name: 1, uris: [3, 3, 3, 3], notify: 1,
-        v4: ResCh::Blocks(vec![3]), v6: ResCh::Blocks(vec![0, 1]), asn: ResCh::Blocks(vec![0]), overclaim: Overclaim::Trim, subject_key: 4, ta_aki: false };
+        v4: ResCh::Blocks(vec![3]), v6: ResCh::Blocks(vec![0, 1]), asn: ResCh::Blocks(vec![0]), overclaim: Overclaim::Trim, subject_key: 4, ta_aki: false, text_x: None, name_x: None };
     let mut a = spec.build(d);
     a.set_key_usage(if b.key_usage() == KeyUsage::Ca { KeyUsage::Ee } else { KeyUsage::Ca });
     a.set_basic_ca(if b.basic_ca() == Some(true) { None } else { Some(true) });
